@@ -38,7 +38,7 @@ ASSUMPTIONS = [
     "graphs are compared by an independent blank-node matcher; a simple literal and the same form typed xsd:string are identified",
     "legal short reads are not faults and must give the identical graph",
 ]
-PROBES = ["chunk-inside-multibyte-char", "chunk-inside-escape", "chunk-between-CR-LF", "short-read-stream", "text-stream-without-buffer", "http-redirect", "format-guessed", "fault-fired", "fault-partial", "bufsiz-smaller-than-line", "raw-CR-in-literal", "awkward-path", "default-format-turtle", "relative-path-after-failed-call", "relative-path-after-chdir"]
+PROBES = ["chunk-inside-multibyte-char", "chunk-inside-escape", "chunk-between-CR-LF", "short-read-stream", "text-stream-without-buffer", "http-redirect", "format-guessed", "fault-fired", "fault-partial", "bufsiz-smaller-than-line", "raw-CR-in-literal", "awkward-path", "default-format-turtle", "relative-path-after-failed-call", "relative-path-after-chdir", "writer-own-nt", "writer-own-nquads", "writer-own-turtle", "writer-own-trig", "writer-own-xml-abbreviated", "writer-own-xml-plain", "writer-own-jsonld-with-context", "writer-own-jsonld-expanded", "writer-rdflib-xml", "writer-rdflib-json-ld", "writer-rdflib-trix", "writer-rdflib-hext"]
 KNOWN_PREDICATES = {}
 
 OWN = ["nt", "nquads", "turtle", "trig"]
@@ -225,6 +225,15 @@ def execute(trace, ctx):
     except Exception as e:  # rdflib's own serialiser refused this graph: not a delivery matter
         ctx.log("make-doc-failed", type(e).__name__)
         return
+    # which writer wrote the document (reach: the evidence counts documents per writer)
+    if fmt in OWN:
+        ctx.probe("writer-own-" + fmt)
+    elif _own_xml(cfg):
+        ctx.probe("writer-own-xml-abbreviated" if (cfg["style_seed"] // 4) % 3 else "writer-own-xml-plain")
+    elif _own_jsonld(cfg):
+        ctx.probe("writer-own-jsonld-with-context" if (cfg["style_seed"] // 4) % 3 else "writer-own-jsonld-expanded")
+    else:
+        ctx.probe("writer-rdflib-" + fmt)
     data = doc.encode("utf-8")
     benc = "utf-8"
     if _own_xml(cfg) and cfg["style_seed"] % 3 == 0:
